@@ -191,6 +191,13 @@ def run_check(prop, mod, tier, seed):
                 theorems += re.findall(r"^theorem\s+([\w.']+)", strip_comments(src), re.M)
             except OSError:
                 pass
+    recheck = None
+    if ok_build and tier == "thorough":
+        # independent re-check of the compiled .olean files of every Lean module the property depends on
+        mods_all = [f[:-5].replace("/", ".") for f in files]
+        rc, out = sh(["lake", "env", "leanchecker"] + mods_all, cwd=LEAN, timeout=3000)
+        recheck = {"modules": len(mods_all), "exit": rc, "tail": out[-300:]}
+        if rc != 0: audit_problems.append("leanchecker rejects: " + out[-800:])
     proof_ok = ok_build and not audit_problems
 
     # ---- cases: corpus first, then generated
@@ -338,6 +345,18 @@ def run_check(prop, mod, tier, seed):
         if hasattr(mod, "outcome"):
             try: outcomes[mod.outcome(c, o)] += 1
             except BaseException: outcomes["?"] += 1
+    # which instructions / API actions of the machine model the generated cases exercised (reported by the driver per case)
+    ALL = ("act.closeDirect act.closeLoop act.closeSig act.enq act.forceQuit act.getUserInput act.newLoop act.proc act.push act.pushModal act.raiseErr act.raiseExit "
+           "act.redrawSig act.regSource act.replace act.schedRedraw act.schedule afterQuit afterSetup afterSetup2 afterSetupFail apprun blockingInput callH callScr catchDraw "
+           "catchExit catchHandler catchPI catchPS classify closeLoop closeScreen closeScreen2 closeScreen3 countAndAct dispatch drawScreen endPI getDispatch getInput getInput2 "
+           "hret identCheck inputReady inputReceived kill loopCheck mainCheck maybeInput modalRet newLoop note popLevel printLines printWidget procIter procWait processInput "
+           "processScreen processSignal pushModal quitCb restoreRun scrRet waitCheck waitInput waitStep").split()
+    seen_instrs = set()
+    for m in model_obs:
+        if isinstance(m, dict) and "instrs" in m: seen_instrs.update(m["instrs"])
+    model_cov = None
+    if seen_instrs:
+        model_cov = {"exercised": len(seen_instrs & set(ALL)), "of": len(ALL), "not_exercised": sorted(set(ALL) - seen_instrs)}
     rs = random.Random(seed)
     samples = [strip_cc(c) for c in rs.sample(cases, min(3, len(cases)))]
     discharged = len(theorems) if proof_ok else 0
@@ -350,7 +369,7 @@ def run_check(prop, mod, tier, seed):
                              "axioms used by this property's theorems: " + ", ".join(sorted({a for t in theorems for a in axioms.get(t, [])}) or ["none"]),
                              "harness/ (correspondence check, adapters, JSON driver glue in lean/Driver)"] + list(mod.ASSUMPTIONS),
             "theorems": {t: axioms.get(t) for t in theorems},
-            "lean_files": files,
+            "lean_files": files, "leanchecker": recheck, "model_instruction_coverage": model_cov,
             "evaluations": len(cases), "distinct_nontrivial": nontrivial, "rule": mod.RULE,
             "samples": samples,
             "traces_validated_against_impl": sum(1 for m in model_obs if m is not None),
